@@ -13,7 +13,6 @@ CLAIMED: dict[str, tuple] = {}
 NOT_APPLICABLE: dict[str, str] = {
     "C11": "dtype promotion and 'imaginary part stays zero' are properties of runtime values; no clause is a structural necessary condition (with zero imaginary parts E^2 and |E|^2 coincide), so static analysis has nothing sound to decide",
     "C25": "feasibility of the output of a data-dependent generator loop (brush placement bookkeeping over runtime arrays); no structural necessary clause",
-    "C30": "the statement is index arithmetic held in runtime tables (save-index map, argmax inversion); only peripheral pairing rules are structural and the tree violates the property for start_recording_after>0 in a way no principled static rule detects, so claiming it would report 'holds' where it does not",
     "C42": "needs multi-device execution; sharding equality is a runtime property",
 }
 
